@@ -17,7 +17,6 @@ pub fn card_cycle<S: Src>(s: &mut S) {
     reach!(s, su == 0, "C08.card_cycle.reach_clubs_wraps");
     let w1 = w.shift_suit();
     check!(s, w1 == layout(r, shifted_suit(su)), "C08.card_cycle.next_suit_same_rank");
-    check!(s, w.next_suit() == suit_enum(shifted_suit(su)), "C08.card_cycle.next_suit");
     check!(s, w1 != w, "C08.card_cycle.moves");
     check!(s, w.shift_suit().shift_suit().shift_suit().shift_suit() == w, "C08.card_cycle.four_shifts_restore");
     check!(s, 0u32.shift_suit() == 0, "C08.card_cycle.blank_stays_blank");
